@@ -144,9 +144,10 @@ pub fn c20_strategy() -> impl Strategy<Value = C20Case> {
         prop::collection::vec(xtime_strategy(), 10),
         prop::collection::vec(xtime_strategy(), 0..=6),
         any::<bool>(),
+        0u8..8,
     )
-        .prop_map(|(timing, default_ez, kfs, start, times, advances, second_state_animated)| {
-            let mut tl = TlDesc { timing, default_ez, kfs, order: 0 }.sanitize();
+        .prop_map(|(timing, default_ez, kfs, start, times, advances, second_state_animated, order)| {
+            let mut tl = TlDesc { timing, default_ez, kfs, order }.sanitize();
             let back = tl.uses_back();
             if back {
                 // an overshooting (Back) easing legitimately takes a value beyond its endpoints: keep the
